@@ -161,4 +161,41 @@ class Cut:
         interp.exec_block(node.orelse, env)
 
     def run_for(self, interp, node, env, info, k, it):
-        raise Unsupported("cut of a for loop: use ForCut")
+        """`for i in range(n)` with symbolic n: inv(interp, env, phase) may read env['__i'] (the number of completed
+        iterations).  established at __i = 0; body from a generic __i in [0, n); exit state: __i == max(n, 0)."""
+        run = interp.dom.run
+        if not isinstance(it, RangeV):
+            raise Unsupported("cut of a for loop over something else than range(n)")
+        from .sym import zint, Sym
+        n = zint(it.n)
+        name = f"{info.qualname}::loop#{k}"
+        env.set("__i", 0)
+        self._check(interp, env, name, "established")
+        mods = assigned_names(node) | self.extra_modified
+        havocked = set(self.havoc(interp, env)) | {"__i"}
+        missing = mods - havocked
+        if missing:
+            raise Unsupported(f"{name}: invariant does not havoc loop-modified variables {sorted(missing)}")
+        run.reset_pc(run.ghost.get("base_pc", []))
+        i = run.fresh("for_i", z3.IntSort())
+        env.set("__i", Sym(i))
+        run.assume(i >= 0)
+        for lab, f, props in self.inv(interp, env, "assume"):
+            if z3.is_expr(f) and _has_quantifier(f):
+                run.assume_q(f)
+            else:
+                run.assume(f)
+        if run.choose(name + ":body_or_exit", 2) == 0:
+            run.assume(i < n)
+            interp.assign(node.target, Sym(i), env)
+            try:
+                interp.exec_block(node.body, env)
+            except BreakEx:
+                return
+            except ContinueEx:
+                pass
+            env.set("__i", Sym(z3.simplify(i + 1)))
+            self._check(interp, env, name, "preserved")
+            raise PathEnd()
+        run.assume(i == z3.If(n >= 0, n, 0))
+        interp.exec_block(node.orelse, env)
